@@ -214,6 +214,9 @@ def run_scripts(work, scripts, seed, tier, tag, jobs=12):
     rep = run_driver("proto", work, scripts=sp, out=tp, seed=seed, jobs=jobs, tier=tier, tag=tag)
     if rep["done"] != len(scripts):
         raise HarnessError("driver finished %d of %d scripts" % (rep["done"], len(scripts)))
+    unminted = (rep.get("extra") or {}).get("unminted", 0)
+    if unminted > max(3, len(scripts) // 4):
+        raise HarnessError("the gateway refused a connection file for %d of %d scripts: the tunnel scripts cannot be judged" % (unminted, len(scripts)))
     res = trace_check("TunnelTrace", "TunnelTrace.cfg", tp, work, tag="tt-" + tag)
     lines = read_ndjson(tp)
     viol = []
